@@ -132,7 +132,7 @@ OpListsCarried == [][rm'.pub = rm.pub /\ rm'.unpub = rm.unpub]_vars
 
 \* C09 design facts about the window
 WindowFacts ==
-    \A f \in 0..(MaxLen + 1), u \in 0..(MaxLen + 1), t \in 0..(MaxLen + 1) :
+    \A f \in (-1)..(MaxLen + 1), u \in (-1)..(MaxLen + 1), t \in 0..(MaxLen + 1) :
         /\ (f # 0 /\ u = 0) => (InWindow(f, u, t) <=> (f <= t /\ t <= f + TD))
         /\ (u # 0) => (InWindow(f, u, t) <=> (f <= t /\ t <= u))
         /\ (f = 0 /\ u = 0) => InWindow(f, u, t)
